@@ -18,40 +18,41 @@ namespace X86.Rust
 
 /-- `a + b`: exact, or panic (overflow checks on) / wrap (off). -/
 def add {w} (cfg : Cfg) (a b : BitVec w) : R (BitVec w) :=
-  if BitVec.uaddOverflow a b && cfg.ovf then .panic else .ok (a + b)
+  bif BitVec.uaddOverflow a b && cfg.ovf then .panic else .ok (a + b)
 
 /-- `a - b`. -/
 def sub {w} (cfg : Cfg) (a b : BitVec w) : R (BitVec w) :=
-  if BitVec.usubOverflow a b && cfg.ovf then .panic else .ok (a - b)
+  bif BitVec.usubOverflow a b && cfg.ovf then .panic else .ok (a - b)
 
 /-- `a * b`. -/
 def mul {w} (cfg : Cfg) (a b : BitVec w) : R (BitVec w) :=
-  if BitVec.umulOverflow a b && cfg.ovf then .panic else .ok (a * b)
+  bif BitVec.umulOverflow a b && cfg.ovf then .panic else .ok (a * b)
 
 /-- `a % b` on unsigned integers: panics for `b = 0` in every profile. -/
 def rem {w} (a b : BitVec w) : R (BitVec w) :=
-  if b == 0 then .panic else .ok (a % b)
+  bif b == 0 then .panic else .ok (a % b)
 
 /-- `a / b` on unsigned integers. -/
 def div {w} (a b : BitVec w) : R (BitVec w) :=
-  if b == 0 then .panic else .ok (a / b)
+  bif b == 0 then .panic else .ok (a / b)
 
-/-- `a << n` with a non-literal amount `n` of width `v`: panic (checks on) / amount masked (off) when `n ≥ w`. -/
+/-- `a << n` with a non-literal amount `n` of width `v` (`w < 2^v` for every pair of Rust integer types):
+panic (checks on) / amount masked to the width (off) when `n ≥ w`. -/
 def shl {w v} (cfg : Cfg) (a : BitVec w) (n : BitVec v) : R (BitVec w) :=
-  if decide (w ≤ n.toNat) && cfg.ovf then .panic else .ok (a <<< (n.toNat % w))
+  bif BitVec.ule (BitVec.ofNat v w) n && cfg.ovf then .panic else .ok (a <<< (n % BitVec.ofNat v w))
 
 /-- `a >> n` (logical) with a non-literal amount. -/
 def shr {w v} (cfg : Cfg) (a : BitVec w) (n : BitVec v) : R (BitVec w) :=
-  if decide (w ≤ n.toNat) && cfg.ovf then .panic else .ok (a >>> (n.toNat % w))
+  bif BitVec.ule (BitVec.ofNat v w) n && cfg.ovf then .panic else .ok (a >>> (n % BitVec.ofNat v w))
 
 def checkedAdd {w} (a b : BitVec w) : Option (BitVec w) :=
-  if BitVec.uaddOverflow a b then none else some (a + b)
+  bif BitVec.uaddOverflow a b then none else some (a + b)
 
 def checkedSub {w} (a b : BitVec w) : Option (BitVec w) :=
-  if BitVec.usubOverflow a b then none else some (a - b)
+  bif BitVec.usubOverflow a b then none else some (a - b)
 
 def checkedMul {w} (a b : BitVec w) : Option (BitVec w) :=
-  if BitVec.umulOverflow a b then none else some (a * b)
+  bif BitVec.umulOverflow a b then none else some (a * b)
 
 /-- `x.is_power_of_two()`: exactly one bit set. -/
 def isPowerOfTwo {w} (x : BitVec w) : Bool :=
@@ -66,14 +67,14 @@ def getBits {w} (x : BitVec w) (lo hi : Nat) : BitVec w :=
 
 /-- `x.set_bits(lo..hi, v)`: `bit_field` asserts that `v` fits into `hi - lo` bits, then replaces the field. -/
 def setBits {w} (x : BitVec w) (lo hi : Nat) (v : BitVec w) : R (BitVec w) :=
-  if (v &&& ~~~fieldMask w lo hi) == 0 then .ok ((x &&& ~~~(fieldMask w lo hi <<< lo)) ||| (v <<< lo)) else .panic
+  bif (v &&& ~~~fieldMask w lo hi) == 0 then .ok ((x &&& ~~~(fieldMask w lo hi <<< lo)) ||| (v <<< lo)) else .panic
 
 /-- `x.get_bit(i)`. -/
 def getBit {w} (x : BitVec w) (i : Nat) : Bool := x.getLsbD i
 
 /-- `x.set_bit(i, b)`. -/
 def setBit {w} (x : BitVec w) (i : Nat) (b : Bool) : BitVec w :=
-  if b then x ||| (1#w <<< i) else x &&& ~~~(1#w <<< i)
+  bif b then x ||| (1#w <<< i) else x &&& ~~~(1#w <<< i)
 
 /-- `Option::unwrap` / `expect`. -/
 def unwrap {α} (o : Option α) : R α :=
